@@ -178,12 +178,12 @@ prop(
 _ENC_ASSUMPTIONS = [
     "Spec.decodeFrame (RFC 8878 transcription, validated against libzstd on every run by engine `spec`) is the meaning of 'valid Zstandard'",
     "the source obeys the Read contract (0 only at end of input, never more than the buffer); twox-hash streaming = one-shot XXH64; `vec![0; n]` has capacity n (so the built-in matcher's spaces are always slice_size bytes)",
-    "user Matcher: `get_last_space()` returns the space committed last; after `reset()` it behaves like a fresh matcher",
+    "user Matcher: `get_last_space()` returns the space committed last. (The built-in matcher does NOT behave like a fresh one after reset() at the byte level - recycled suffix stores change the parses - which is why compress_reuse_independent is stated relative to the matcher script and the correspondence threads the matcher model through histories; correctness is script independent.)",
 ]
 
 prop(
     "C02",
-    level_text="Theorems for all inputs, all read fragmentations, all prior states of the compressor object (so all histories) and both settings of the hash feature: at the Uncompressed level compress never panics and Spec.decodeFrame (strict RFC transcription) decodes the frame to exactly the input, consuming exactly the frame and verifying the checksum (full proof: header, raw blocks, last-block logic incl. the extra empty block, trailer); a reused compressor emits the same bytes as a fresh one (all levels, any block encoder); at the Fastest level the same round trip is proved for RLE blocks, raw-fallback blocks, the last_huff_table bookkeeping (F5) and all plumbing, with the block encoder a parameter constrained by the explicit contract BlockEncCorrect (= C16's statement) for blocks kept as compressed. The model is tied to the code by running both on the same inputs: Uncompressed frames byte-identical, Fastest frames compared on everything the model predicts; every emitted frame is decoded by ruzstd (2 decoders), libzstd and the Lean Spec walker.",
+    level_text="Theorems for all inputs, all read fragmentations, all prior states of the compressor object (so all histories) and both settings of the hash feature: at the Uncompressed level compress never panics and Spec.decodeFrame (strict RFC transcription) decodes the frame to exactly the input, consuming exactly the frame and verifying the checksum (full proof: header, raw blocks, last-block logic incl. the extra empty block, trailer); a reused compressor emits the same bytes as a fresh one (all levels, any block encoder); at the Fastest level the same round trip is proved for RLE blocks, raw-fallback blocks, the last_huff_table bookkeeping (F5) and all plumbing, with the block encoder a parameter constrained by the explicit contract BlockEncCorrect (= C16's statement) for blocks kept as compressed. The model is tied to the code by running both on the same inputs: since the entropy-coder models (C12/C13) and the matcher model (C17) were merged, the executable model contains ALL of compress (Model/EncCoders.lean) and every frame - Uncompressed and Fastest, fresh and reused compressors (the matcher model is threaded through the frames of a history), built-in and user-supplied matchers - is compared BYTE FOR BYTE; every emitted frame is decoded by ruzstd (2 decoders), libzstd and the Lean Spec walker.",
     engines=[{"name": "enc"}],
     modelled="FrameCompressor::compress (per-frame reset, header bytes, read loop, last_block logic, empty block, level dispatch, checksum), compress_fastest (RLE / compressed / raw fallback incl. the F5 repair), BlockHeader::serialize, the window-descriptor arithmetic of FrameHeader::serialize; compress_block and the matcher are parameters; comparison operators, constants and presence of the reset/fallback statements are extracted from the source text (Gen.Enc, Gen.Guards, Gen.Consts)",
     assumptions=_ENC_ASSUMPTIONS,
@@ -191,7 +191,7 @@ prop(
 
 prop(
     "C15",
-    level_text="Theorems with the block encoder an ARBITRARY function (nothing depends on what compress_block writes), for all inputs, fragmentations, compressor states, both hash settings: every emitted block is at most 3 bytes larger than the block it encodes (block_overhead; depends on the raw-fallback guard operators taken from the source: holds for >= and for >, fails without the fallback); frame size <= input + 6 + 3 per block + 4 with blocks = ceil(len/128K)+1 for the built-in matcher; an independent structure walk over the frame finds well-formed raw/RLE/compressed blocks with Block_Size and stored size <= 128 KiB, exactly the final block flagged last, and after it exactly the checksum of the input; the header parses (strict Spec) to magic / no dict / no FCS / checksum flag / declared window >= matcher window. The same facts are checked on every frame the real code emits (structure walk in Rust, size bound, strict Spec walker in Lean).",
+    level_text="Theorems with the block encoder an ARBITRARY function (nothing depends on what compress_block writes), for all inputs, fragmentations, compressor states, both hash settings: every emitted block is at most 3 bytes larger than the block it encodes (block_overhead; depends on the raw-fallback guard operators taken from the source: holds for >= and for >, fails without the fallback); frame size <= input + 6 + 3 per block + 4 with blocks = ceil(len/128K)+1 for the built-in matcher; an independent structure walk over the frame finds well-formed raw/RLE/compressed blocks with Block_Size and stored size <= 128 KiB, exactly the final block flagged last, and after it exactly the checksum of the input; the header parses (strict Spec) to magic / no dict / no FCS / checksum flag / declared window >= matcher window AND >= 128 KiB (repair of F13: no block can exceed the declared window; the harness checks every block of every frame against the window its header declares, incl. user matchers with tiny windows). The same facts are checked on every frame the real code emits (structure walk in Rust, size bound, strict Spec walker in Lean).",
     engines=[{"name": "enc"}],
     also_reports={"enc": ["C02"]},
     modelled="as C02; the structure walker (Proofs/EncStructure.lean walkBlocks) and the harness walker (engines/enc.rs walk_frame) are written independently of the encoder",
@@ -200,7 +200,7 @@ prop(
 
 prop(
     "C16",
-    level_text="ValidMatcher (sequences tile each block, match length >= 3, 1 <= offset <= min(window, bytes before the match), matched bytes equal, non-empty spaces <= min(declared window, 128 KiB), window <= 2^41) is defined executably and checked by the model on every script the harness generates. Theorems for every matcher script satisfying it: the frame-level round trip holds given the block-encoder contract BlockEncCorrect (RLE, raw fallback, huff-table bookkeeping proved); in compress_block every sequence maps to in-range (code, extra) values, so the unreachable!() arms of encode_literal_length / encode_match_len / encode_seqnum cannot be hit (<= 43690 sequences per block); literals-size fields fit; the raw-literals path (<= 1024 literals) decodes by the strict Spec to exactly the literals; last_huff_table tracks the decoder's table over an abstract literal coder (the invariant F5 broke), and is forgotten when a block is stored raw. F4 and F10 (panics inside the entropy coders) are explicit exclusions of the partial theorem and reproduce in the harness as KNOWN-FINDINGs until repaired.",
+    level_text="ValidMatcher (sequences tile each block, match length >= 3, 1 <= offset <= min(window, bytes before the match), matched bytes equal, non-empty spaces <= 128 KiB, window <= 2^41) is defined executably and checked by the model on every script the harness generates. Theorems for every matcher script satisfying it: the frame-level round trip holds given the block-encoder contract BlockEncCorrect (RLE, raw fallback, huff-table bookkeeping proved); in compress_block every sequence maps to in-range (code, extra) values, so the unreachable!() arms of encode_literal_length / encode_match_len / encode_seqnum cannot be hit (<= 43690 sequences per block); literals-size fields fit; the raw-literals path (<= 1024 literals) decodes by the strict Spec to exactly the literals; last_huff_table tracks the decoder's table over an abstract literal coder (the invariant F5 broke), and is forgotten when a block is stored raw. F4, F10 and F13 are repaired: their witnesses are corpus cases (corpus/matcher_script) that must round-trip, the generators no longer avoid those situations (hundreds of all-LL-0 / all-ML-3 blocks per run), the RLE-literals path of the F10 repair is proved against the strict Spec (f10_repaired_single_value_literals), ValidMatcher.space_le is just the trait's 128 KiB. The full statement is closed (real coders, Model/EncCoders.lean) and reduced to two named obligations (compress_with_matcher_correct_full_of); a kernel-evaluated end-to-end example shows a kept compressed block from the real coders decoding under the strict Spec. Scripted-matcher frames are compared byte for byte with the model.",
     engines=[{"name": "matcher_script"}],
     modelled="as C02 plus compress_block down to the entropy coders (literal gathering, u32 casts, offset + 3, literals threshold, raw_literals, sequence count, code mapping); FSE / Huffman coders are parameters with contracts (C12 / C13 slices)",
     assumptions=_ENC_ASSUMPTIONS,
